@@ -3756,6 +3756,18 @@ class RockRidgeContinuationBlock:
 
         return offset
 
+    def is_empty(self):
+        # type: () -> bool
+        """
+        Tell whether any entry is left in this block.
+
+        Parameters:
+         None.
+        Returns:
+         True if this block holds no entry, False otherwise.
+        """
+        return not self._entries
+
     def remove_entry(self, offset, length):
         # type: (int, int) -> None
         """
